@@ -370,7 +370,7 @@ enum Beh {
     Sleep(u64), // sleeps that long (ms) and passes; used with a document limit
     /// the same, in a shell that ignores SIGTERM (`trap '' TERM`) or defers it (`trap : TERM`): "is aborted" must not depend on the command's cooperation
     SleepNoTerm(u64, bool),
-    /// `{wait: <w>ms}` then a sleep of `ms`: the wait is not charged to the test's own limit, but to the document's clock
+    /// `{wait: <w>ms}` then a sleep of `ms`: the wait passes before the remaining time of the document is looked at
     WaitSleep(u64, u64),
     /// Cram only: the command leaves the shell (`exit N`): the one script ends here
     ExitShell(i32),
@@ -989,9 +989,13 @@ fn timed_docs() -> Vec<EDoc> {
         // (6 s of sleep against a limit of 0.4 s: the bound of limit + margin is far below the sleep)
         EDoc { compat_skip: None, cram: false, broken: false, total: Some(20_000), tests: vec![s(10, None), (Beh::SleepNoTerm(6000, true), Some(400)), s(10, None)] },
         EDoc { compat_skip: None, cram: false, broken: false, total: Some(500), tests: vec![(Beh::SleepNoTerm(6000, false), None), s(10, None)] },
-        // the document limit runs out BETWEEN two test cases (the wait of the second one is not charged to its own limit):
-        // the third one is due with nothing left and must be reported as timed out, the run fails
+        // the document limit runs out while a test case WAITS: it is due with nothing left and must be reported as
+        // timed out, the run fails
         EDoc { compat_skip: None, cram: false, broken: false, total: Some(1000), tests: vec![s(10, None), (Beh::WaitSleep(1600, 10), None), s(10, None), s(10, None)] },
+        // wait and command together overrun the document limit, neither does alone: 1.5 s + 1.5 s against 2 s
+        EDoc { compat_skip: None, cram: false, broken: false, total: Some(2000), tests: vec![s(10, None), (Beh::WaitSleep(1500, 1500), None), s(10, None)] },
+        // ... and inside the limit: 0.3 s + 0.3 s against 5 s
+        EDoc { compat_skip: None, cram: false, broken: false, total: Some(5000), tests: vec![(Beh::WaitSleep(300, 300), None), s(10, None)] },
     ]
 }
 
@@ -1007,14 +1011,14 @@ fn timed_spec(d: &EDoc) -> Vec<(usize, &'static str)> {
     for (i, (b, to)) in d.tests.iter().enumerate() {
         let dur = match b { Beh::Sleep(ms) | Beh::SleepNoTerm(ms, _) | Beh::WaitSleep(_, ms) => *ms, _ => 0 };
         let wait = if let Beh::WaitSleep(w, _) = b { *w } else { 0 };
+        // the wait passes before the remaining time of the document is looked at (fix 5800e20)
+        now += wait;
         let rem = total.map(|t| t.saturating_sub(now));
         let lim = match (to, rem) {
             (Some(p), Some(r)) => Some((*p).min(r)),
             (Some(p), None) => Some(*p),
             (None, r) => r,
         };
-        // the wait passes after the limit was computed
-        now += wait;
         if lim.map_or(false, |l| l <= dur) {
             out.push((i, "timeout"));
             for j in i + 1..d.tests.len() {
@@ -1097,18 +1101,21 @@ fn timed_case(prop: &str, d: EDoc, tmproot: &Path, idx: u64) -> CaseRec {
 
 /// "is aborted": once scrut has reported the timeout and exited, the command does not go on running. The slow
 /// command writes a marker when its sleep is over; the marker must never appear.
-/// idx: kind of limit (4) x the command ignores SIGTERM (2); idx 8 and 9 are controls that end inside the limit
+/// idx: kind of limit (4) x the command ignores SIGTERM (2); idx 8 and 9 are controls that end inside the limit;
+/// idx 10..13: the command closes stdout and stderr before it sleeps (reading its output ends at once, the limit
+/// has to hold for the wait for its exit)
 fn abort_case(prop: &str, idx: u64, tmproot: &Path) -> CaseRec {
-    let control = idx >= 8;
+    let control = idx == 8 || idx == 9;
+    let closes = idx >= 10;
     let limit = idx % 4;
-    let ignore_term = idx / 4 % 2 == 1 && !control;
+    let ignore_term = idx / 4 % 2 == 1 && !control && !closes;
     let dir = tmproot.join(format!("abort-{idx}"));
     let _ = std::fs::remove_dir_all(&dir);
     std::fs::create_dir_all(dir.join("tmp")).unwrap();
     let marker = dir.join("late");
     // limits of 300 ms against 1.2 s of sleep; the command line limit counts in seconds: 1 s against 2 s
     let (sleep_ms, limit_ms) = if control { (100u64, 5000u64) } else if limit >= 2 { (2000, 1000) } else { (1200, 300) };
-    let slow = format!("{}sleep {}.{:03}; echo late > {}; echo ok", if ignore_term { "trap '' TERM; " } else { "" }, sleep_ms / 1000, sleep_ms % 1000, marker.display());
+    let slow = format!("{}{}sleep {}.{:03}; echo late > {}; echo ok", if closes { "exec 1>&- 2>&-; " } else { "" }, if ignore_term { "trap '' TERM; " } else { "" }, sleep_ms / 1000, sleep_ms % 1000, marker.display());
     let (name, text, args): (&str, String, Vec<String>) = match limit {
         0 => ("doc.md", format!("# first\n\n```scrut\n$ echo ok\nok\n```\n\n# slow\n\n```scrut {{timeout: {limit_ms}ms}}\n$ {slow}\nok\n```\n"), vec![]),
         1 => ("doc.md", format!("---\ntotal_timeout: {limit_ms}ms\n---\n\n# slow\n\n```scrut\n$ {slow}\nok\n```\n"), vec![]),
@@ -1164,7 +1171,7 @@ fn abort_case(prop: &str, idx: u64, tmproot: &Path) -> CaseRec {
         std::thread::sleep(Duration::from_millis(until - wall));
     }
     if control != marker.exists() {
-        let what = if control { "the control command (inside all limits) did not run to its end".to_string() } else { format!("the command went on after scrut reported the timeout and exited: its marker appeared (limit kind {limit}, {limit_ms} ms against {sleep_ms} ms of sleep, SIGTERM ignored: {ignore_term})") };
+        let what = if control { "the control command (inside all limits) did not run to its end".to_string() } else { format!("the command went on after scrut reported the timeout and exited: its marker appeared (limit kind {limit}, {limit_ms} ms against {sleep_ms} ms of sleep, SIGTERM ignored: {ignore_term}, output streams closed first: {closes})") };
         fails.push(("C14:not-aborted".into(), what));
     }
     let _ = std::fs::remove_dir_all(&dir);
@@ -1330,7 +1337,7 @@ pub fn run(ctx: &Ctx, prop: &str) {
     // 4b. a timed-out command is aborted, not abandoned (C14)
     if prop == "C14" || ctx.thorough {
         let tr = tmproot.clone();
-        ctx.run_stream("e2e-timeout-aborts-exhaustive", 10, true, |idx| Some(abort_case(prop, idx, &tr)));
+        ctx.run_stream("e2e-timeout-aborts-exhaustive", 14, true, |idx| Some(abort_case(prop, idx, &tr)));
     }
     // 4c. a command that ends at once is not a timeout, however large its shell expression (C14)
     if prop == "C14" || ctx.thorough {
